@@ -207,6 +207,8 @@ class CharMap:
         elif k == "str":                    # CHARSET start,"string"
             for i, c in enumerate(bytes.fromhex(op[2])):
                 self.t[op[1] + i] = c
+        elif k == "file":                   # CHARSET "file": the first 256 bytes of the file are the new table
+            self.t = list(charset_file(op[1], op[2]))
         else:
             raise ValueError(op)
 
@@ -215,6 +217,11 @@ class CharMap:
 
     def identity(self):
         return self.t == list(range(256))
+
+
+def charset_file(mul, add):
+    """content of the translation table file cs<mul>_<add>.tab (a permutation of 0..255, mul odd)"""
+    return bytes((c * mul + add) & 0xff for c in range(256))
 
 
 def multichar_value(codes, cmap):
@@ -422,7 +429,13 @@ class State:
         self.padding = self.t["pad_default"]
         self.big = self.t["big"]
         self.packing = False
-        self.cmap = CharMap()
+        # CODEPAGE: named translation tables; CHARSET modifies the active one
+        self.pages = {"STANDARD": CharMap()}
+        self.page = "STANDARD"
+
+    @property
+    def cmap(self):
+        return self.pages[self.page]
 
     def directive(self, d):
         k = d["dir"]
@@ -434,6 +447,16 @@ class State:
             self.packing = bool(d["on"])
         elif k == "charset":
             self.cmap.apply(d["op"])
+        elif k == "codepage":
+            # "the name of the set to be used hereafter and optionally the name of another table that defines its
+            # initial contents (... only has a meaning for the first switch to the table ...).  If the second
+            # parameter is missing, the initial contents of the new table are copied from the previously active set"
+            name, src = d["name"], d.get("src")
+            if name not in self.pages:
+                if src is not None and src not in self.pages:
+                    raise ValueError("codepage source " + src)
+                self.pages[name] = (self.pages[src] if src is not None else self.cmap).copy()
+            self.page = name
         else:
             raise ValueError(d)
 
